@@ -668,6 +668,9 @@ class Interp:
             if isinstance(b, tuple) and b[0] == "ty":
                 out.append(b[1])
                 changed = True
+            elif isinstance(b, str):
+                out.append(b)
+                changed = True
             elif isinstance(b, int) and not isinstance(b, bool):
                 out.append(str(b))
                 changed = True
